@@ -81,9 +81,15 @@ pub fn serve(raw: UnixStream, s: SrvCfg, acc_key: Vec<u8>, rawlog: Arc<Mutex<Vec
     log.cr = match read_tpkt(&mut tee) { Some(f) => f, None => { log.note = "no connection request".into(); return log; } };
     let offered = if log.cr.len() >= 19 { u32::from_le_bytes([log.cr[15], log.cr[16], log.cr[17], log.cr[18]]) } else { 0 };
     // 0x100: the server selects PROTOCOL_RDP (0) whatever was offered and then speaks in the clear
-    let sel = if s.sel == 0x100 { 0 } else if s.sel != 0 { s.sel } else if offered & 2 != 0 { 2 } else { 1 };
+    // 0x200: a confirm WITHOUT negotiation response (header only), then in the clear.  0x1000 | (f << 16): the usual
+    // selection, with flag byte f in the negotiation response
+    let bare = s.sel == 0x200;
+    let nflags: u8 = if s.sel & 0x1000 != 0 { (s.sel >> 16) as u8 } else { 0 };
+    let ssel = if s.sel & 0x1000 != 0 { 0 } else { s.sel };
+    let sel = if ssel == 0x100 || bare { 0 } else if ssel != 0 { ssel } else if offered & 2 != 0 { 2 } else { 1 };
     log.sel = sel;
-    if !write_all(&mut tee, &refsrv::tpkt_frame(&crate::props::c05::confirm(2, 0, sel))) { log.note = "write cc".into(); return log; }
+    let cc = if bare { vec![0x06u8, 0xd0, 0, 0, 0, 0, 0] } else { crate::props::c05::confirm(2, nflags, sel) };
+    if !write_all(&mut tee, &refsrv::tpkt_frame(&cc)) { log.note = "write cc".into(); return log; }
     let (ident, spk) = identity(s.id);
     let acceptor = native_tls::TlsAcceptor::new(ident).unwrap();
     let mut tls = if sel == 0 { Chan::Raw(tee) } else { match acceptor.accept(tee) { Ok(t) => Chan::Tls(t), Err(_) => { log.note = "tls accept failed".into(); return log; } } };
@@ -381,7 +387,7 @@ pub fn tlsgate(em: &mut Emitter, check: bool, nla: bool, ra: bool, ssel: u32) {
     let tls_up = r.log.note != "tls accept failed" && (!r.log.m1.is_empty() || !r.log.frames.is_empty());
     let cred = !r.log.m1.is_empty() || !r.log.m2.is_empty() || r.log.frames.len() > 5;
     let out = format!("tls={} cred={} connect={} req={}", if tls_up { "up" } else { "refused" }, cred as u8, if r.status == "ok" { "ok" } else { "E" }, hex(&r.log.cr));
-    let line = format!("tlsgate hist={} check={} nla={} ra={} ssel={} sel={}", hist, check as u8, nla as u8, ra as u8, ssel, r.log.sel);
+    let line = format!("tlsgate hist={} check={} nla={} ra={} ssel={} sel={} nf={} bare={}", hist, check as u8, nla as u8, ra as u8, ssel, r.log.sel, if ssel & 0x1000 != 0 { (ssel >> 16) & 0xff } else { 0 }, (ssel == 0x200) as u8);
     let mut obs = Obs::new(out).nt(true).tag("tlsgate");
     if check && (tls_up || cred) { obs = obs.viol("certificate checking enabled, untrusted certificate, but the client went on"); }
     // the reference server's view of the negotiation: what it selected must be in the request it received
@@ -516,7 +522,7 @@ pub fn default_caps() -> Vec<Vec<u8>> {
          refsrv::cap(9, &[0, 0, 0, 0])]
 }
 
-fn strings() -> Vec<&'static str> { vec!["", "a", "user", "a\u{0}b", "\u{0}", "Administrator", "élève", "名前", "😀user", "ßtraße-long-name-ü", "0123456789abcdef", "0123456789abcdefXYZ", "éééééééééééééééé", "😀😀😀😀😀😀😀😀", "a b c",
+fn strings() -> Vec<&'static str> { vec!["aaaaaaaaaaaaaa\u{10FFFD}", "aaaaaaaaaaaaaa\u{10000}z", "aaaaaaaaaaaaa\u{10FC00}\u{10FFFF}", "aaaaaaaaaaaaaaa\u{10FFFF}", "", "a", "user", "a\u{0}b", "\u{0}", "Administrator", "élève", "名前", "😀user", "ßtraße-long-name-ü", "0123456789abcdef", "0123456789abcdefXYZ", "éééééééééééééééé", "😀😀😀😀😀😀😀😀", "a b c",
     // up to 64 code points: 26 / 27 / 37 / 64 units, 32 surrogate pairs, 64 two-byte letters
     "abcdefghijklmnopqrstuvwxyz", "abcdefghijklmnopqrstuvwxyz0", "corp-domain-with-a-long-name.example.", "0123456789012345678901234567890123456789012345678901234567890123",
     "😀😀😀😀😀😀😀😀😀😀😀😀😀😀😀😀😀😀😀😀😀😀😀😀😀😀😀😀😀😀😀😀", "éééééééééééééééééééééééééééééééééééééééééééééééééééééééééééééééé"] }
@@ -528,7 +534,7 @@ pub fn generate(prop: &str, thorough: bool, seed: u64, part: (usize, usize), em:
     let mut idx = 0usize;
     let mut seen = std::collections::HashSet::new();
     // a server that selects plain RDP security (never offered) and then speaks in the clear: nothing may follow the request
-    if part.0 == 0 { for nla in 0..2 { for ra in 0..2 { tlsgate(em, false, nla == 1, ra == 1, 0x100); } } }
+    if part.0 == 0 { for nla in 0..2 { for ra in 0..2 { tlsgate(em, false, nla == 1, ra == 1, 0x100); tlsgate(em, false, nla == 1, ra == 1, 0x200); } } }
     // every mode combination {nla, restricted, blank, auto, hash} ...
     let rounds = match (prop, thorough) { ("C17", false) => 2, ("C17", true) => 12, (_, false) => 1, (_, true) => 4 };
     for round in 0..rounds {
@@ -543,7 +549,7 @@ pub fn generate(prop: &str, thorough: bool, seed: u64, part: (usize, usize), em:
             if mode % 5 == 1 { flags &= !0x20; } if mode % 7 == 3 { flags &= !0x10; }
             // the order and repetition of the Connector's builder calls (last call per switch wins)
             BUILDER_HIST.store(((mode + round as u32) % 4) as u8, std::sync::atomic::Ordering::Relaxed);
-            let s = SrvCfg { sel: 0, id: 1 + (mode as usize % 2), uid: 1004, version: 0x80004, license_new: false, share: 0x103ea, caps: default_caps(), source: b"RDP\0".to_vec(), chal_flags: flags, inputs: vec!["P10:20:1:1".into(), "K30:1".into()], script: vec![], reactivate: None, reuse: if round % 2 == 1 { 1 + (mode % 2) as u8 } else { 0 }, jrefuse: 0, ber: 0 };
+            let s = SrvCfg { sel: 0, id: 1 + (mode as usize % 2), uid: 1004, version: [0x80004u32, 0x80001, 0x80004, 0x80005, 0x80004, 0x80010][((mode / 8) as usize + round) % 6], license_new: false, share: 0x103ea, caps: default_caps(), source: b"RDP\0".to_vec(), chal_flags: flags, inputs: vec!["P10:20:1:1".into(), "K30:1".into()], script: vec![], reactivate: None, reuse: if round % 2 == 1 { 1 + (mode % 2) as u8 } else { 0 }, jrefuse: 0, ber: 0 };
             let run = emit(em, &c, &s);
             BUILDER_HIST.store(0, std::sync::atomic::Ordering::Relaxed);
             if prop == "C04" { emit_strict(em, &run, &mut seen); }
@@ -556,6 +562,15 @@ pub fn generate(prop: &str, thorough: bool, seed: u64, part: (usize, usize), em:
         for total in 46..=50usize {
             let c = Cfg { w: 800, h: 600, lay: 0x409, name: "rdp-rs".into(), dom: "D".repeat(16), user: "u".repeat(16), pw: "p".repeat(total - 32), hash: false, ra: false, blank: false, auto: false, nla: false, check: false };
             let s = SrvCfg { sel: 0, id: 1, uid: 1004, version: 0x80001, license_new: false, share: 0x103ea, caps: default_caps(), source: b"RDP\0".to_vec(), chal_flags: 0x62898235, inputs: vec![], script: vec![], reactivate: None, reuse: 0, jrefuse: 0, ber: 0 };
+            let run = emit(em, &c, &s);
+            if prop == "C04" { emit_strict(em, &run, &mut seen); }
+        }
+    }
+    // client names whose 15th / 16th UTF-16 unit is half of a surrogate pair, for every kind of lead surrogate
+    if part.0 == 0 {
+        for name in strs.iter().take(4) {
+            let c = Cfg { w: 800, h: 600, lay: 0x409, name: name.to_string(), dom: "D".into(), user: "u".into(), pw: "p".into(), hash: false, ra: false, blank: false, auto: false, nla: false, check: false };
+            let s = SrvCfg { sel: 0, id: 1, uid: 1004, version: 0x80004, license_new: false, share: 0x103ea, caps: default_caps(), source: b"RDP\0".to_vec(), chal_flags: 0x62898235, inputs: vec![], script: vec![], reactivate: None, reuse: 0, jrefuse: 0, ber: 0 };
             let run = emit(em, &c, &s);
             if prop == "C04" { emit_strict(em, &run, &mut seen); }
         }
